@@ -871,7 +871,8 @@ func ruleHeadersBeforeData(c *Ctx, rule string) {
 		// paths avoiding the helper must come through a "flag == true" edge: implement by cutting at helper
 		// calls and checking that any remaining path to s goes through a block dominated by flag==true...
 		// Simplification that covers if/else shapes: find the flag test; the false edge must lead to the helper.
-		bad := pathAvoiding(fn, nil, func(in ssa.Instruction) bool { return in == s }, func(in ssa.Instruction) bool {
+		root := regionRoot(fn) // the sender may be called from a single-use helper of the send method (`return st.sendDataLocked(b)`)
+		bad := pathAvoiding(root, nil, func(in ssa.Instruction) bool { return in == s }, func(in ssa.Instruction) bool {
 			if isHelper(in) {
 				return true
 			}
@@ -900,7 +901,7 @@ func ruleHeadersBeforeData(c *Ctx, rule string) {
 			}
 			return false
 		}
-		if pathAvoidingE(fn, nil, func(in ssa.Instruction) bool { return in == s }, isHelper, flagTrueEdge) == nil && flagName != "" {
+		if pathAvoidingE(root, nil, func(in ssa.Instruction) bool { return in == s }, isHelper, flagTrueEdge) == nil && flagName != "" {
 			okBypass = true
 		}
 		for _, b := range fn.Blocks {
